@@ -45,8 +45,7 @@ class IO:
         if fmt == "internal":
             # the internal format also has to round-trip a registry in which managed
             # features are switched off; only what the comparison itself reads is required
-            pk = tr.features.position_key
-            return tr.features.tracklet_key in feats and (tr.segmentation is None or pk in feats)
+            return tr.features.tracklet_key in feats
         if tr.features.tracklet_key not in feats or tr.features.lineage_key not in feats:
             return False
         pk = tr.features.position_key
@@ -315,7 +314,8 @@ class IO:
             fmt = "csv"
         d = self.fresh(f"reimport-{fmt}")
         wp = op.get("with_pos", True)
-        out = {"resolved": {"fmt": fmt, "with_pos": wp}, "tags": [fmt] + ([] if wp else ["no_pos_map"]) + (["empty_solution"] if empty else [])}
+        pos_off = tr.segmentation is not None and tr.features.position_key not in tr.annotators.features
+        out = {"resolved": {"fmt": fmt, "with_pos": wp}, "tags": [fmt] + ([] if wp else ["no_pos_map"]) + (["empty_solution"] if empty else []) + (["pos_disabled"] if pos_off else [])}
         _, exc, seam = self._armed(sim, op, d, lambda dd: self._write(sim, fmt, dd), "w")
         if seam == "twin_failed":
             return None
@@ -508,11 +508,16 @@ def _compare_tracks(a, b, chan: str, fmt: str, with_pos: bool = True) -> list:
         return [(pre + ".edges", f"edge sets differ: only in original {sorted(set(ga.edges) - set(gb.edges))[:5]}, only in import {sorted(set(gb.edges) - set(ga.edges))[:5]}")]
     out = []
     loaded_pos = with_pos or a.segmentation is None or chan != "geff"
+    pk_a = a.features.position_key
+    has_pos = all(k in a.features for k in (pk_a if isinstance(pk_a, list) else [pk_a]))
     for n in ga.nodes:
         if int(a.get_time(n)) != int(b.get_time(n)):
             out.append((pre + ".attrs", f"time of node {n}: {a.get_time(n)} vs {b.get_time(n)}"))
-        pa = [float(x) for x in a.get_position(n)]
-        pb = [float(x) for x in b.get_position(n)]
+        if not has_pos:
+            pa = pb = []  # the position feature is switched off in the original: nothing to compare
+        else:
+            pa = [float(x) for x in a.get_position(n)]
+            pb = [float(x) for x in b.get_position(n)]
         if loaded_pos:
             if pa != pb:
                 out.append((pre + ".attrs", f"position of node {n}: {pa} vs {pb}"))
